@@ -87,7 +87,7 @@ class Ctx:
         known = {'findings': [], 'fixed': []}
         if os.path.exists(KNOWN): known = json.load(open(KNOWN))
         kf = {f['key']: f for f in known.get('findings', []) if f['property'] == self.pid}
-        outdir = os.path.join(VERIF, 'out'); os.makedirs(outdir, exist_ok=True)
+        outdir = os.environ.get('VV_OUT_DIR') or os.path.join(VERIF, 'out'); os.makedirs(outdir, exist_ok=True)
         for f in os.listdir(outdir):
             if f.startswith(self.pid + '.'): os.remove(os.path.join(outdir, f))
         new = []; seen_known = []
@@ -127,8 +127,9 @@ class Ctx:
             'wall_s': round(wall, 2),
             'violations': len(new),
         }
-        os.makedirs(os.path.join(VERIF, 'evidence'), exist_ok=True)
-        json.dump(ev, open(os.path.join(VERIF, 'evidence', self.pid + '.json'), 'w'), indent=1, default=str)
+        evdir = os.environ.get('VV_EVIDENCE_DIR') or os.path.join(VERIF, 'evidence')
+        os.makedirs(evdir, exist_ok=True)
+        json.dump(ev, open(os.path.join(evdir, self.pid + '.json'), 'w'), indent=1, default=str)
         print('%s %s: %d obligations, %d discharged, %d violations (%d known), %d roots, %d paths, %.1fs' % (self.pid, self.tier, self.obligations, self.discharged, len(new), len(seen_known), self.roots_analysed, self.paths_analysed, wall))
         if new: return 1
         if self.internal: return 2
